@@ -67,7 +67,7 @@ Definition replace_char (c d : N) (s : str) : str := map (fun x => if N.eqb x c 
 
 (** decimal printing *)
 Definition str_of_uint (d : Decimal.uint) : str := of_string (NilEmpty.string_of_uint d).
-Definition show_N (n : N) : str := of_string (NilZero.string_of_uint (N.to_uint n)).
+Definition show_N (n : N) : str := of_string (NilEmpty.string_of_uint (N.to_uint n)).
 Definition show_nat (n : nat) : str := show_N (N.of_nat n).
 Definition show_Z (z : Z) : str :=
   match z with
